@@ -2,11 +2,14 @@
 Oracle for C15: re-computes the model's prediction of the datagram sizes and evaluates the
 spec (`Gotlcp.Spec.DtlcpTxSpec`) on what the real transmit path handed to the network.
 
-case (kind=wr) : `suite=<none|gcm|cbc> pmtu=<int> n=<payload bytes>`      one application write
+case (kind=wr) : `suite=<none|gcm|cbc> [cfg=<reach>] pmtu=<int> n=<payload bytes>`      one application write
+  <reach> (how the *Config with the configured PMTU got to the connection; absent = c0):
+     c<k>        handed to Client/Server after k Config.Clone() calls
+     g<k>l<int>  returned (after k Clone() calls) by GetConfigForClient of a listener Config whose own PMTU is <int>
   observed     : `max=<maxPayloadSizeForWrite> en=<explicitNonceLen> dg=<size>.<size>… or -`
 case (kind=fl) : `suite=… pmtu=… recs=<n1>.<n2>… or -`   handshake records written while buffering, then flush
   observed     : `early=<datagrams before flush> dg=<sizes>`
-case (kind=e2e): `suite=<ecc-gcm|ecc-cbc|ecdhe-gcm|ecdhe-cbc> cp=<client PMTU> sp=<server PMTU> sizes=<n>.<n>…
+case (kind=e2e): `suite=<ecc-gcm|ecc-cbc|ecdhe-gcm|ecdhe-cbc> [ccfg=c<k>] [scfg=<reach>] cp=<client PMTU> sp=<server PMTU> sizes=<n>.<n>…
                   rsizes=<n>.<n>… stream=<n>`   (PMTU is a send-side setting: cp bounds client→server, sp server→client)
   observed     : `hs=ok|fail hsC=<handshake datagram sizes of the client> hsS=<… server>
                   w=<n>:<datagram sizes>:<ReadFrom lengths at the peer, "!" when the bytes differ>,…   client WriteTo
@@ -30,6 +33,14 @@ def here : Consts :=
 def gcmHere : Cipher := .aead (Facts.dtlcp.aeadNonceLength - Facts.dtlcp.noncePrefixLength) 16
 def cbcHere : Cipher := .cbc 16 32
 
+/-- same definition as `Props.C15.cfgHere` (pinned there by `C15_config_facts`) -/
+def cfgHere : CfgConsts :=
+  { cloneCopiesPmtu := Facts.dtlcp.clonePmtu == Facts.dtlcp.cloneRecv ++ ".PMTU" &&
+      !Facts.dtlcp.cloneMissing.contains "PMTU" && !Facts.dtlcp.cloneNotVerbatim.contains "PMTU",
+    forClientInstalled :=
+      Facts.dtlcp.txCfgAssigns.contains "Conn.selectConfigForClient: c.config = configForClient" &&
+      Facts.dtlcp.txCfgForClient.contains "if configForClient != nil { c.config = configForClient }" }
+
 def cipherOf (s : String) : Option (Cipher × DtlcpTxSpec.Suite) :=
   if s == "none" then some (.none, .none)
   else if s == "gcm" || s == "ecc-gcm" || s == "ecdhe-gcm" then some (gcmHere, .gcm)
@@ -38,6 +49,28 @@ def cipherOf (s : String) : Option (Cipher × DtlcpTxSpec.Suite) :=
 
 def parseInt (s : String) : Option Int :=
   if s.startsWith "-" then (String.ofList (s.toList.drop 1)).toNat?.map (fun n => -(n : Int)) else s.toNat?.map Int.ofNat
+
+/-- `c<k>` / `g<k>l<int>`; an absent token is the configured object itself -/
+def parseReach (o : Option String) : Option Reach :=
+  match o with
+  | none => some (.ctor .direct)
+  | some s =>
+    match s.toList with
+    | 'c' :: ks => (String.ofList ks).toNat?.map fun k => .ctor (Via.clones k)
+    | 'g' :: rest =>
+      match (String.ofList rest).splitOn "l" with
+      | [ks, lp] => do
+        let k ← ks.toNat?
+        let l ← parseInt lp
+        pure (.forClient l (Via.clones k))
+      | _ => none
+    | _ => none
+
+def reachNote : Reach → String
+  | .ctor .direct => ""
+  | .ctor _ => "+cloned"
+  | .forClient _ .direct => "+forclient"
+  | .forClient _ _ => "+forclient-cloned"
 
 def showSizes (l : List Nat) : String := if l.isEmpty then "-" else ".".intercalate (l.map toString)
 
@@ -48,15 +81,18 @@ def judgeWR (ct ot : List String) : Option Verdict := do
   let (c, su) ← (kv ct "suite").bind cipherOf
   let pmtu ← (kv ct "pmtu").bind parseInt
   let n ← kvNat ct "n"
-  let m := maxPayloadSizeForWrite here pmtu c
-  let dg := writeTo here pmtu c (List.replicate n 0)
+  let reach ← parseReach (kv ct "cfg")
+  -- the model computes with what the write path reads; the spec judges with what was configured
+  let inForce := pmtuRead cfgHere reach pmtu
+  let m := maxPayloadSizeForWrite here inForce c
+  let dg := writeTo here inForce c (List.replicate n 0)
   let model := s!"max={m} en={explicitNonceLen c} dg={showSizes dg}"
   let spec : Option (String × String) :=
     match kvNat ot "max", (kv ot "dg").bind parseSizes with
     | some om, some odg => DtlcpTxSpec.judgeWrite su pmtu om n odg
     | _, _ => if (kv ot "panic").isSome then some ("panic", "the write path panicked") else some ("shape", "unparseable observation")
   pure { model := model, spec := spec, trivial := false,
-         note := if n == 0 then "empty" else if n ≤ m then "single" else "split" }
+         note := (if n == 0 then "empty" else if n ≤ m then "single" else "split") ++ reachNote reach }
 
 def judgeFL (ct ot : List String) : Option Verdict := do
   let (c, _) ← (kv ct "suite").bind cipherOf
@@ -112,14 +148,19 @@ def judgeE2E (ct ot : List String) : Option Verdict := do
   let rszs := ((kv ct "rsizes").bind parseSizes).getD []
   let st := (kvNat ct "stream").getD 0
   let stl := if st == 0 then [] else [st]
-  let mc := maxPayloadSizeForWrite here cp c
-  let ms := maxPayloadSizeForWrite here sp c
+  let cr ← parseReach (kv ct "ccfg")
+  let sr ← parseReach (kv ct "scfg")
+  -- what each write path reads (model) vs what was configured (cp / sp: the spec's bound)
+  let cin := pmtuRead cfgHere cr cp
+  let sin := pmtuRead cfgHere sr sp
+  let mc := maxPayloadSizeForWrite here cin c
+  let ms := maxPayloadSizeForWrite here sin c
   -- handshake datagram sizes are inputs (certificates, signatures): echoed
   let hs := (kv ot "hs").getD "?"
   let hsC := (kv ot "hsC").getD "?"
   let hsS := (kv ot "hsS").getD "?"
   let model := if hs == "ok" then
-      s!"hs=ok hsC={hsC} hsS={hsS} w={showWay cp c szs} v={showWay sp c rszs} W={showWay cp c stl} V={showWay sp c stl}"
+      s!"hs=ok hsC={hsC} hsS={hsS} w={showWay cin c szs} v={showWay sin c rszs} W={showWay cin c stl} V={showWay sin c stl}"
     else s!"hs=ok hsC={hsC} hsS={hsS}"
   let spec : Option (String × String) :=
     if hs != "ok" then some ("handshake-failed", s!"the handshake did not complete at PMTU {cp}/{sp}") else
@@ -134,7 +175,7 @@ def judgeE2E (ct ot : List String) : Option Verdict := do
       (DtlcpTxSpec.judgeFlight sp ds)
     | _, _ => some ("shape", "unparseable observation")
   pure { model := model, spec := spec, trivial := false,
-         note := if cp == sp then "e2e-symmetric" else "e2e-asymmetric" }
+         note := (if cp == sp then "e2e-symmetric" else "e2e-asymmetric") ++ reachNote cr ++ reachNote sr }
 
 def judge (c o : String) : Option Verdict :=
   let ct := tokens c
